@@ -534,6 +534,8 @@ def export_stats(ctx):
     return
   if not STATS.get('batched_theorem', {}).get('side-conditions hold'):
     raise InfraError('no generated case was inside the domain of the batched refinement theorems')
+  if ctx.pid == 'C08' and STATS.get('fnless_theorem_pyref', {}).get('compared', 0) < 500:
+    raise InfraError('the direct specification of fn-less chains (Ref.fnlessChain) was compared with the Python reference on fewer than 500 cases')
   if ctx.pid == 'C08' and STATS.get('heap_tie', {}).get('records compared', 0) < 100:
     raise InfraError('the heap tie (identity pattern of assign outputs vs Model/PipeHeap.lean) compared fewer than 100 records')
 
@@ -670,6 +672,26 @@ def compare_batched(impl, model):
   return None
 
 
+def compare_fnless(impl, model):
+  """Chains of un-batched operators WITHOUT functions: the direct specification `Ref.fnlessChain` (Model/PipeFnless.lean:
+  the value read under input key i is stored as it is under output key i; no call, no tuple packing) against the Lean
+  model of the code (instances of C08_fnless_chain: must agree whenever SelfAlone + CleanRun hold) and against the
+  independent Python reference (`ref_route_values`)."""
+  ok = bool(model['fnless_ok'])
+  _stat('fnless_theorem', 'side-conditions hold' if ok else 'outside (SELF first of several keys, passed-on error)')
+  if not ok:
+    return None
+  if model.get('out') != model['fnless_out'] or model.get('err') != model['fnless_err']:
+    return (f"the direct specification Ref.fnlessChain differs from the Lean model of the code although the side conditions of "
+            f"C08_fnless_chain hold: {jdump(model['fnless_out'])[:200]} / {jdump(model.get('out'))[:200]}")
+  ref = impl.get('pyref') or {}
+  if ref.get('exact') and 'crash' not in ref and ref.get('out') is not None:
+    _stat('fnless_theorem_pyref', 'compared')
+    if ref['out'] != model['fnless_out'] or (ref['err'] is None) != (model['fnless_err'] is None):
+      return f"Ref.fnlessChain and the Python reference differ: py {jdump(ref['out'])[:300]} / lean {jdump(model['fnless_out'])[:300]}"
+  return None
+
+
 def compare(impl, model):
   d = _compare(impl, model)
   if d is not None:
@@ -704,6 +726,10 @@ def _compare(impl, model):
       return f"reference interpreters differ on err: py {ref['err']} / lean {model['ref_err']}"
     if ref['logs'] != model['ref_logs']:
       return 'reference interpreters differ on sink logs'
+  if 'fnless_ok' in model:
+    d = compare_fnless(impl, model)
+    if d is not None:
+      return d
   if 'refb_ok' in model:
     d = compare_batched(impl, model)
     if d is not None:
